@@ -264,7 +264,7 @@ Section WithCodec.
 
   (* ---------------------------------------------------------------- layer and mask information *)
   Lemma read_lami_wf v s l s' restlen :
-    read_lami dec_s v s = Ok (l, s') -> 0 < restlen -> lami_guard v l restlen = true ->
+    read_lami dec_s v s = Ok (l, s') -> 0 < restlen -> lami_guard l = true ->
     wf_lami enc_s dec_s v l restlen = true.
   Proof.
     unfold read_lami. intros H Hrest Hg. dres1 H as nb En. dres H as length s1 E1.
@@ -272,11 +272,11 @@ Section WithCodec.
     dres1 H as l0 El. inversion H; subst. clear H. unfold read_lami_body in El.
     dres El as li s2 Eli. dres El as g s3 Eg. dres1 El as tb Et. inversion El; subst. clear El.
     unfold lami_guard, g_blocks_present, g_glmi_before_blocks in Hg. cbn [la_info la_glmi la_blocks] in Hg.
-    apply andb_prop in Hg as [Hg H4]. apply andb_prop in Hg as [Hg H3]. apply andb_prop in Hg as [H1 H2].
-    unfold wf_lami. cbn [la_info la_glmi la_blocks]. rewrite H3, andb_true_r.
+    apply andb_prop in Hg as [Hg H4]. apply andb_prop in Hg as [H1 H2].
+    unfold wf_lami. cbn [la_info la_glmi la_blocks].
     rewrite (read_layer_info_wf _ _ _ _ Eli H1). cbn [andb].
     assert (Hgl : match g with Some g0 => wf_glmi g0 | None => true end = true).
-    { unfold r_opt in Eg. destruct (is_readable glmi_probe s2 && (len s1 - len s2 <? length)).
+    { unfold r_opt in Eg. match type of Eg with (if ?c then _ else _) = _ => destruct c end.
       - dres Eg as g0 s4 Eg0. inversion Eg; subst. eapply read_glmi_wf; eassumption.
       - inversion Eg; subst. reflexivity. }
     rewrite Hgl. cbn [andb].
@@ -300,12 +300,12 @@ Section WithCodec.
     inversion H; subst. exact Ev.
   Qed.
 
-  Theorem read_psd_wf b d :
-    read_psd dec_s b = Ok d -> resave_guard d = true -> wf_psd enc_s dec_s d = true.
+  Theorem read_psd_wf_full b d :
+    read_psd dec_s b = Ok d -> resave_guard_full d = true -> wf_psd enc_s dec_s d = true.
   Proof.
     unfold read_psd. intros H Hg. dres H as h s1 Eh. dres H as cmd s2 Ec. dres H as rs s3 Er.
     dres H as l s4 El. dres1 H as img Ei. inversion H; subst. clear H.
-    unfold resave_guard in Hg. unfold wf_psd. cbn [p_header p_res p_lami p_img] in *.
+    unfold resave_guard_full in Hg. unfold wf_psd. cbn [p_header p_res p_lami p_img] in *.
     rewrite (read_header_valid _ _ _ Eh), (read_resources_wf _ _ _ Er), (read_image_data_wf _ _ Ei).
     cbn [andb]. rewrite andb_true_r. eapply read_lami_wf; [eassumption| |assumption].
     pose proof (len_nonneg (cd_data img)). lia.
@@ -324,36 +324,170 @@ Section WithCodec.
       unfold wf_record in H. unfold mask_ok. destruct (r_mask r) as [m|]; [|reflexivity].
       split_andb. unfold wf_mask in *. split_andb. assumption.
   Qed.
-  Lemma wf_psd_guard d : wf_psd enc_s dec_s d = true -> resave_guard d = true.
+  Lemma wf_psd_guard d : wf_psd enc_s dec_s d = true -> resave_guard_full d = true.
   Proof.
-    unfold wf_psd, resave_guard, lami_guard, wf_lami, g_blocks_present, g_glmi_before_blocks.
+    unfold wf_psd, resave_guard_full, lami_guard, wf_lami, g_blocks_present, g_glmi_before_blocks.
     intros H. apply andb_prop in H as [H _]. apply andb_prop in H as [_ H].
     destruct (la_info (p_lami d)) as [li|].
-    - apply andb_prop in H as [H Hgg]. apply andb_prop in H as [H Hb]. apply andb_prop in H as [Hli _].
-      rewrite (wf_li_guard _ Hli), Hgg. cbn [andb].
+    - apply andb_prop in H as [H Hb]. apply andb_prop in H as [Hli _].
+      rewrite (wf_li_guard _ Hli). cbn [andb].
       destruct (la_blocks (p_lami d)) as [bs|].
       + cbn [is_some andb]. apply andb_prop in Hb as [Hb _]. apply andb_prop in Hb as [_ Hb].
         destruct bs; cbn [truthy nonempty negb] in *; [apply orb_true_r|exact Hb].
       + apply Z.eqb_eq in Hb. pose proof (len_nonneg (cd_data (p_img d))). lia.
-    - apply andb_prop in H as [Hg Hb]. unfold glmi_guard. destruct (la_glmi (p_lami d)); [discriminate|].
+    - apply andb_prop in H as [Hg Hb]. destruct (la_glmi (p_lami d)); [discriminate|].
       destruct (la_blocks (p_lami d)); [discriminate|]. reflexivity.
   Qed.
 
   (* ---------------------------------------------------------------- re-saving *)
   (* under the guards: whenever the save succeeds, the saved bytes are accepted, read to the
      structure as it is after the save, and saving that reproduces the bytes *)
-  Theorem resave_of_write pad b d s n :
-    0 < pad -> read_psd dec_s b = Ok d -> resave_guard d = true ->
+  Theorem resave_of_write_full pad b d s n :
+    0 < pad -> read_psd dec_s b = Ok d -> resave_guard_full d = true ->
     write_psd enc_s pad d = Ok (s, n) ->
     read_psd dec_s s = Ok (psd_after_write d) /\
     write_psd enc_s pad (psd_after_write d) = Ok (s, n) /\
     psd_after_write (psd_after_write d) = psd_after_write d.
   Proof.
-    intros Hp Hr Hg Hw. pose proof (read_psd_wf _ _ Hr Hg) as Hwf.
+    intros Hp Hr Hg Hw. pose proof (read_psd_wf_full _ _ Hr Hg) as Hwf.
     split; [exact (psd_rt enc_s dec_s pad d s n Hp Hwf Hw)|].
     split; [now rewrite write_psd_after|apply psd_after_idem].
   Qed.
 End WithCodec.
+
+(* ------------------------------------------------------------------ F-C02-4 is unreachable from a byte string (since f3a2729) *)
+Lemma suffix_canon (k : nat) (s : stream) : skipn k s = skipn (Z.to_nat (len s - len (skipn k s))) s.
+Proof.
+  unfold len. rewrite skipn_length.
+  destruct (Nat.le_gt_cases k (length s)) as [Hk|Hk].
+  - replace (Z.to_nat (Z.of_nat (length s) - Z.of_nat (length s - k))) with k by lia. reflexivity.
+  - replace (Z.to_nat (Z.of_nat (length s) - Z.of_nat (length s - k))) with (length s) by lia.
+    rewrite skipn_all. apply skipn_all2. lia.
+Qed.
+Lemma skipn_skipn {A} (x y : nat) (l : list A) : skipn x (skipn y l) = skipn (x + y) l.
+Proof.
+  revert l. induction y as [|y IH]; intros l; [now rewrite Nat.add_0_r|].
+  destruct l as [|a l]; [now rewrite !skipn_nil|]. rewrite Nat.add_succ_r. cbn [skipn]. apply IH.
+Qed.
+Lemma take_suffix n s a r : take n s = Ok (a, r) -> r = skipn (Z.to_nat n) s.
+Proof. unfold take. destruct (_ && _); intros H; inversion H. reflexivity. Qed.
+Lemma read_u_suffix n s v r : read_u n s = Ok (v, r) -> r = skipn n s.
+Proof.
+  unfold read_u. intros H. dres1 H as x Ex. inversion H; subst. destruct x as [a r]. cbn [snd].
+  apply take_suffix in Ex. now rewrite Nat2Z.id in Ex.
+Qed.
+Lemma Forall_skipn {A} (P : A -> Prop) k l : Forall P l -> Forall P (skipn k l).
+Proof.
+  intros H. apply Forall_forall. intros x Hx. rewrite Forall_forall in H. apply H.
+  rewrite <- (firstn_skipn k l). apply in_or_app. now right.
+Qed.
+
+Lemma Forall5 {A} (P : A -> Prop) a b c d e l :
+  Forall P (a :: b :: c :: d :: e :: l) -> P a /\ P b /\ P c /\ P d /\ P e.
+Proof.
+  intros H. pose proof (Forall_inv H). apply Forall_inv_tail in H. pose proof (Forall_inv H). apply Forall_inv_tail in H.
+  pose proof (Forall_inv H). apply Forall_inv_tail in H. pose proof (Forall_inv H). apply Forall_inv_tail in H.
+  pose proof (Forall_inv H). auto.
+Qed.
+
+Section Unreach.
+  Variable dec_s : list Z -> res (list Z).
+
+  Lemma read_layer_info_suffix v s li s2 :
+    read_layer_info dec_s v s = Ok (li, s2) -> exists k, s2 = skipn k s.
+  Proof.
+    unfold read_layer_info. intros H. dres1 H as nb En. dres H as length s1 E1.
+    apply read_u_suffix in E1. subst s1.
+    destruct (length =? 0); [inversion H; subst; eauto|].
+    dres H as li0 s3 Eb. destruct (_ <=? _); [|discriminate]. inversion H; subst.
+    unfold skipz. rewrite skipn_skipn. eauto.
+  Qed.
+
+  (* the two signatures, byte by byte *)
+  Lemma sig_bytes a b c d :
+    Forall byte [a; b; c; d] -> memz (be_val [a; b; c; d]) model_tb_sigs = true ->
+    a = 56 /\ b = 66 /\ ((c = 73 /\ d = 77) \/ (c = 54 /\ d = 52)).
+  Proof.
+    intros Hb Hm. pose proof (be_bytes_val _ Hb) as Hv. cbn [length] in Hv.
+    unfold memz, model_tb_sigs in Hm. cbn [existsb] in Hm. rewrite orb_false_r in Hm.
+    apply orb_prop in Hm as [Hm|Hm]; apply Z.eqb_eq in Hm; rewrite Hm in Hv; vm_compute in Hv;
+      inversion Hv; subst; auto.
+  Qed.
+
+  Theorem glmi_before_blocks_reached b d :
+    Forall byte b -> read_psd dec_s b = Ok d -> g_glmi_before_blocks (p_lami d) = true.
+  Proof.
+    unfold read_psd. intros Hbytes H. dres H as h t1 Eh. dres H as cmd t2 Ec. dres H as rs t3 Er.
+    dres H as l t4 El. dres1 H as img Ei. inversion H; subst. clear H. cbn [p_lami].
+    (* t3 is a suffix of b *)
+    assert (Ht3 : Forall byte t3).
+    { unfold read_header in Eh. repeat dskip Eh. destruct (header_valid _); [|discriminate]. inversion Eh; subst.
+      unfold read_cmd, read_resources, read_length_block in *. dres1 Ec as hc Ehc. dres1 Ec as dc Edc.
+      inversion Ec; subst. dres Er as data r3 Erd. dres1 Er as items Eit. inversion Er; subst.
+      dres1 Erd as hr Ehr. dres1 Erd as dr Edr. inversion Erd; subst.
+      repeat match goal with
+             | E : read_u _ _ = Ok _ |- _ => apply read_u_suffix in E; subst
+             | E : take _ _ = Ok (_, _) |- _ => apply take_suffix in E; subst
+             | E : take _ _ = Ok ?p |- _ => destruct p; apply take_suffix in E; subst
+             end.
+      cbn [snd fst]. unfold r_pad. repeat apply Forall_skipn. assumption. }
+    clear Eh Ec Er. unfold read_lami in El. dres1 El as nb En. dres El as length s1 E1.
+    apply read_u_suffix in E1. assert (Hs1 : Forall byte s1) by (subst s1; now apply Forall_skipn). clear E1 Ht3 Hbytes.
+    destruct (length =? 0); [inversion El; reflexivity|].
+    dres1 El as l0 Elb. inversion El; subst. clear El. unfold read_lami_body in Elb.
+    dres Elb as li s2 Eli. dres Elb as g s3 Eg. dres1 Elb as tb Et. inversion Elb; subst. clear Elb.
+    unfold g_glmi_before_blocks. cbn [la_glmi la_blocks]. destruct g as [g|]; [reflexivity|]. cbn [is_some orb].
+    unfold r_opt in Eg. destruct (is_readable glmi_probe s2 && (len s1 - len s2 + glmi_probe <=? length)) eqn:Ec.
+    { dres Eg as g0 s4 Eg0. discriminate. }
+    inversion Eg; subst s3. clear Eg.
+    destruct (is_readable 1 s2); [|inversion Et; reflexivity].
+    dres Et as bs s5 Eb. inversion Et; subst. clear Et.
+    unfold read_tagged_blocks in Eb. dres Eb as items s6 Eit. inversion Eb; subst. clear Eb.
+    cbn [read_tagged_items] in Eit.
+    destruct (negb (is_readable 8 s2)) eqn:E8; [inversion Eit; reflexivity|].
+    destruct (length - (len s1 - len s2) <=? 0) eqn:Ebud; [inversion Eit; reflexivity|].
+    dres1 Eit as ob Eob. destruct ob as [[b0 s7]|]; [|inversion Eit; reflexivity].
+    exfalso. clear Eit.
+    (* the first four bytes of s2 are a signature *)
+    unfold read_tagged_block in Eob. dres Eob as sg u1 Esg.
+    destruct (negb (memz sg model_tb_sigs)) eqn:Em; [discriminate|]. apply negb_false_iff in Em. clear Eob.
+    apply negb_false_iff in E8. unfold is_readable in E8, Ec. unfold glmi_probe in Ec.
+    destruct (read_layer_info_suffix _ _ _ _ Eli) as [k Hk].
+    assert (Hs2 : Forall byte s2) by (subst s2; now apply Forall_skipn).
+    pose proof (suffix_canon k s1) as Hk2. rewrite <- Hk in Hk2. clear Hk k. rename Hk2 into Hk.
+    destruct s2 as [|a [|b1 [|c [|d [|e s2']]]]]; try (cbn in E8; lia).
+    unfold read_u, take in Esg. cbn [Z.of_nat Pos.of_succ_nat Pos.succ] in Esg.
+    replace ((0 <=? 4) && (4 <=? len (a :: b1 :: c :: d :: e :: s2'))) with true in Esg
+      by (symmetry; rewrite !len_cons; pose proof (len_nonneg s2'); lia).
+    cbn [bind fst snd Z.to_nat Pos.to_nat Pos.iter_op Nat.add firstn skipn] in Esg. inversion Esg; subst sg u1. clear Esg.
+    destruct (Forall5 _ _ _ _ _ _ _ Hs2) as (Ha & Hb1 & Hc0 & Hd0 & He).
+    assert (Hb4 : Forall byte [a; b1; c; d]) by (repeat (constructor; [assumption|]); constructor).
+    destruct (sig_bytes _ _ _ _ Hb4 Em) as (-> & -> & Hcd).
+    (* where the image data is read: [budget] bytes into s2 *)
+    set (consumed := len s1 - len (56 :: 66 :: c :: d :: e :: s2')) in *.
+    assert (Hbud : 0 < length - consumed < 4) by lia.
+    assert (Hcons : 0 <= consumed) by (unfold consumed, len; rewrite Hk, skipn_length; lia).
+    assert (Hlen : length <= len s1).
+    { unfold consumed in Hbud. rewrite !len_cons in Hbud. pose proof (len_nonneg s2'). lia. }
+    unfold skipz in Ei. rewrite Z.min_l in Ei by lia.
+    replace (Z.to_nat length) with (Z.to_nat (length - consumed) + Z.to_nat consumed)%nat in Ei by lia.
+    rewrite <- skipn_skipn, <- Hk in Ei.
+    unfold read_image_data, read_u, take in Ei. unfold byte in He.
+    assert (Hcase : length - consumed = 1 \/ length - consumed = 2 \/ length - consumed = 3) by lia.
+    change (Z.of_nat 2) with 2 in Ei. change (Z.to_nat 2) with 2%nat in Ei.
+    destruct Hcase as [Hc1|[Hc1|Hc1]]; rewrite Hc1 in Ei;
+      [change (Z.to_nat 1) with 1%nat in Ei|change (Z.to_nat 2) with 2%nat in Ei|change (Z.to_nat 3) with 3%nat in Ei];
+      cbn [skipn] in Ei;
+      match type of Ei with context [?x && ?y] => replace (x && y) with true in Ei
+          by (symmetry; rewrite !len_cons; pose proof (len_nonneg s2'); lia) end;
+      cbn [bind fst snd firstn skipn] in Ei;
+      destruct Hcd as [[-> ->]|[-> ->]];
+      match type of Ei with context [memz ?v model_compressions] =>
+        assert (Hv : memz v model_compressions = false)
+          by (unfold memz, model_compressions, be_val; cbn [rev app le_val existsb]; lia)
+      end; rewrite Hv in Ei; discriminate.
+  Qed.
+End Unreach.
 
 (* ------------------------------------------------------------------ payloads survive as raw bytes *)
 Lemma upd_recs_blocks rs : forall cs, map r_blocks (upd_recs rs cs) = map r_blocks rs.
@@ -525,3 +659,34 @@ Proof.
   intros Hp Hr Hg Hw. destruct (read_leaf_wf _ _ _ Hr) as [Hk Hwf]. rewrite <- Hk.
   exact (leaf_rt pad l s n Hp (Hwf Hg) Hw).
 Qed.
+
+(* ------------------------------------------------------------------ the theorems of Properties/C02.v *)
+Section Final.
+  Variable enc_s : list Z -> res (list Z).
+  Variable dec_s : list Z -> res (list Z).
+  Hypothesis Hcodec : codec_ok enc_s dec_s.
+
+  Lemma guard_full b d :
+    Forall byte b -> read_psd dec_s b = Ok d -> resave_guard d = true -> resave_guard_full d = true.
+  Proof.
+    intros Hb Hr Hg. unfold resave_guard_full, lami_guard. unfold resave_guard in Hg. rewrite Hg. cbn [andb].
+    exact (glmi_before_blocks_reached dec_s b d Hb Hr).
+  Qed.
+  Lemma guard_of_full d : resave_guard_full d = true -> resave_guard d = true.
+  Proof. unfold resave_guard_full, lami_guard, resave_guard. intros H. now apply andb_prop in H as [H _]. Qed.
+
+  Theorem read_psd_wf b d :
+    Forall byte b -> read_psd dec_s b = Ok d -> resave_guard d = true -> wf_psd enc_s dec_s d = true.
+  Proof. intros Hb Hr Hg. exact (read_psd_wf_full enc_s dec_s Hcodec b d Hr (guard_full b d Hb Hr Hg)). Qed.
+
+  Theorem resave_of_write pad b d s n :
+    0 < pad -> Forall byte b -> read_psd dec_s b = Ok d -> resave_guard d = true ->
+    write_psd enc_s pad d = Ok (s, n) ->
+    read_psd dec_s s = Ok (psd_after_write d) /\
+    write_psd enc_s pad (psd_after_write d) = Ok (s, n) /\
+    psd_after_write (psd_after_write d) = psd_after_write d.
+  Proof.
+    intros Hp Hb Hr Hg Hw.
+    exact (resave_of_write_full enc_s dec_s Hcodec pad b d s n Hp Hr (guard_full b d Hb Hr Hg) Hw).
+  Qed.
+End Final.
